@@ -8,7 +8,9 @@ ID = "C10"
 LEAN_MODULES = ["Properties.C10"]
 THEOREMS = ["EngineModel.Properties.C10." + t for t in [
     "C10_observe_state", "C10_reopen_idle", "C10_history_settles", "C10_reopen_observes", "C10_open_transaction_is_lost",
-    "C10_reload", "C10_load_reports_created", "C10_create_or_load", "C10_create_or_load_logic"]]
+    "C10_reload", "C10_load_reports_created", "C10_create_or_load", "C10_create_or_load_logic",
+    "C10_durable_is_visible", "C10_reopen_invisible", "C10_every_prefix", "C10_atomic_calls_settle", "C10_api_model",
+    "C10_api_model_reopen", "C10_crates_v1", "C10_crates_v2", "C10_tracks_v2"]]
 ASSUMPTIONS = [
     "durability is SQLite's: what a connection has committed is what a later connection on the same files reads "
     "(modelled as Conn.reopen = idle on the committed database; sampled by closing and loading real on-disk libraries "
@@ -23,7 +25,10 @@ MANIFEST = dict(
     text="Theorems C10_reopen_observes (with C10_history_settles, C10_reopen_idle, C10_observe_state): in the connection "
          "model of Spec/Txn.lean, after any history of public calls — each under any fault plan — whose statement shapes "
          "are closed (Call.settles), no transaction is open, so closing and reopening changes nothing any handle can "
-         "observe; C10_open_transaction_is_lost shows the hypothesis is needed. C10_load_reports_created: load_database "
+         "observe — at every prefix of the history (C10_every_prefix), also when the library was closed and loaded after "
+         "every single call (C10_reopen_invisible); C10_open_transaction_is_lost shows the hypothesis is needed and "
+         "C10_atomic_calls_settle derives it from C14's monitor; C10_crates_v1 / C10_crates_v2 / C10_tracks_v2 carry this to "
+         "the observation functions of the concrete API models. C10_load_reports_created: load_database "
          "on the directory a creator wrote reports that schema, for every schema the library creates (decision tree and "
          "version stamps regenerated from the source each run); C10_create_or_load: creates iff nothing exists, "
          "otherwise loads and reports what is there. Tied to the code on on-disk libraries of each version: after every "
@@ -43,6 +48,12 @@ MANIFEST = dict(
 TRUSTED_EXTRA = ["harness/djv_monitors.cpp (full observation, reopen with handles re-obtained by id), harness/djv_wrap.cpp "
                  "(statement kinds), tools/monitors_gen.py (history generator), tools/tr_detect.py (translator)"]
 STATELESS = False
+SELF_TEST = {"recorded": "2026-09-29, scratch worktree of /repo, quick tier seed 1 (not re-run by the check)", "seeded_changes": {
+    "seeded/sv-C10-handle-cache (2.x set_comment keeps the value in the handle)": "caught: observation through held handles differs after close+load",
+    "seeded/sv-C10-neighbour-schema (loaded_schema unassigned on the Database2 path)": "caught: created 2.18.0, load answers 1.6.0",
+    "seeded/sv-C10-variant-marker (1.18.0 desktop loads as os; also killed by the unit-test suite)": "caught: schema-differs",
+    "seeded/sv-C10-open-transaction (2.x set_bpm: BEGIN without COMMIT)": "caught after Hist.sweep: observation differs, Lean closedShape = open",
+    "seeded/sv-refactor-getter-in-scope, seeded/sv-refactor-reorder-writes (behaviour preserving)": "green"}}
 
 MON = ("trace", "autocommit", "fullobs", "tableapi.reads", "reopen", "closeall", "load", "dirsha", "exists")
 
@@ -118,11 +129,13 @@ def judge_prefixes(script, outs, created_schema):
                     r["problems"].append(("monitor-failed", "fullobs -> %s / %s" % (pre[0][1][:60], post[0][1][:60] if post else "-")))
                 else:
                     r["api"] = a["api"]
-                    if a["api"] != b["api"] or a["uuid"] != b["uuid"]:
+                    if a["api"] != b["api"] or a["uuid"] != b["uuid"] or a.get("held") != b.get("held"):
                         chg = sorted(t for t in set(a["tables"]) | set(b["tables"]) if a["tables"].get(t) != b["tables"].get(t))
                         r["problems"].append(("observed-differs", "the observation through the public API after closing and loading "
                                               "differs from the one before (%s; raw tables that differ: %s)" % (
-                                                  "database uuid" if a["api"] == b["api"] else "getters of crates / tracks / database",
+                                                  "getters of crates / tracks / database" if a["api"] != b["api"] else
+                                                  "database uuid" if a["uuid"] != b["uuid"] else
+                                                  "getters through the handles held since before closing vs the handles re-obtained by id",
                                                   ",".join(chg) or "none")))
                     r["raw_equal"] = a["raw"] == b["raw"]
                 if len(pre) > 1 and len(post) > 1:
@@ -200,6 +213,26 @@ def judge_col(pres, s1, s2, req, o):
     return problems
 
 
+def judge_col_probe(sh, entry, d):
+    """create_or_load_database applied twice to a directory shape (harness c16.probe): creates exactly when no
+    library exists (the library's own notion: neither m.db nor Database2/m.db is there); an existing library —
+    whatever its state — is never written over and never reported as created."""
+    out = []
+    present = G.library_present(sh)
+    created = d["a1"].startswith("created")
+    if present and created:
+        out.append(("created-over-existing", "%s reports created on a directory with %s" % (entry, G.shape_text(sh))))
+    if present and d["before"] != d["after"]:
+        out.append(("existing-modified", "%s changed a directory that holds a library (%s): [%s] -> [%s]" % (
+            entry, G.shape_text(sh), d["l0"][:160], d["l1"][:200])))
+    if not present and not created and not d["a1"].startswith("throw"):
+        out.append(("not-created", "no library exists (%s), %s answered %s" % (G.shape_text(sh), entry, d["a1"][:60])))
+    if created and not d["a2"].startswith("loaded"):
+        out.append(("created-not-loadable", "%s created a library on a directory with %s, the second call answers %s" % (
+            entry, G.shape_text(sh), d["a2"][:60])))
+    return out
+
+
 def model_col(pres, s1, s2, req):
     ex = {"N0": "none", "N": "none", "L": s1, "D": s2}.get(pres)
     return None if ex is None else "c10.col %s %s" % (ex, req)
@@ -223,17 +256,39 @@ def shrink_A(schema, hist, k, tag):
     return script_reopen_each(schema, hist[:k])
 
 
+def run_corpus(ctx):
+    """corpus/C10/*.txt: scripts that once showed a violation on a seeded change of /repo (kept as regression inputs):
+    each is replayed first and must satisfy the oracle on the current tree."""
+    d = os.path.join(VERIF, "corpus", ID)
+    res, viol = {}, []
+    if not os.path.isdir(d):
+        return res, viol
+    for f in sorted(x for x in os.listdir(d) if x.endswith(".txt")):
+        txt = open(os.path.join(d, f)).read()
+        head, body = txt.split("----\n", 1)
+        hdr = dict(l.split(": ", 1) for l in head.split("\n") if ": " in l)
+        lines = [l for l in body.split("\n") if l.strip()]
+        ok, text = replay(ctx, hdr, lines)
+        res[f] = "clean" if ok else "violated"
+        if not ok:
+            probs = [l for l in text.split("\n") if l.startswith("PROBLEM")]
+            viol.append({"tag": "corpus", "signature": {"family": "corpus", "op": f, "effect": "violated"},
+                         "header": {"kind": "script", "what": "corpus witness %s: %s" % (f, "; ".join(probs)[:300])},
+                         "body": [l for l in lines if not l.startswith("# ")]})
+    return res, viol
+
+
 def tie(ctx):
     rng = random.Random(ctx.seed * 1000003 + 10)
     thorough = ctx.tier == "thorough"
     schemas = G.pick_schemas(ctx.tier, ctx.seed)
     n_hist = 2
-    lengths = [20, 28] if thorough else [14, 20]
+    lengths = [70, 40] if thorough else [64, 24]    # history 0: seed + enrich + sweep (~60 calls) + random; history 1: random
     cases = []
     for sch in schemas:
         for hi in range(n_hist):
-            h = G.gen_history(rng, sch, lengths[hi % len(lengths)])
-            cases.append({"schema": sch, "hist": list(h.lines), "ops": dict(h.ops_used)})
+            h = G.gen_history(rng, sch, lengths[hi % len(lengths)], enrich="early" if hi % 2 == 0 else False, sweep=hi % 2 == 0)
+            cases.append({"schema": sch, "hist": list(h.lines), "ops": dict(h.ops_used), "names": list(h.op_names)})
     # stream A (reopen after every call), B (one session), C (each sampled prefix in its own session)
     jobs = []
     for ci, c in enumerate(cases):
@@ -245,11 +300,14 @@ def tie(ctx):
             jobs.append(("C", ci, k, script_no_reopen(c["schema"], c["hist"], upto=k)))
     outs = runner.run_harness([j[3] for j in jobs], watchdog=60)
     violations, divergences = [], []
+    corpus_res, corpus_viol = run_corpus(ctx)
+    violations += corpus_viol
     hist_ops, prefix_checked, raw_eq, raw_ne, rejected = {}, {"A": 0, "B": 0, "C": 0}, 0, 0, 0
     shapes = {}          # kinds -> set of (family, op word)
     calls = []           # (case, line, result, kinds, autocommit)
     apiA, apiB = {}, {}
     distinct = set()
+    covered = set()      # (family, public mutating operation) that ran successfully and was followed by close + load
     for (stream, ci, k, sc), (o, _) in zip(jobs, outs):
         c = cases[ci]
         sch, fam = c["schema"], G.family(c["schema"])
@@ -282,8 +340,10 @@ def tie(ctx):
         if stream == "A":
             for k_, v in c["ops"].items():
                 hist_ops[k_] = hist_ops.get(k_, 0) + v
-            for line, res, kinds, auto in call_records(sc, o):
+            for (line, res, kinds, auto), nm in zip(call_records(sc, o), c["names"]):
                 calls.append((c, line, res, kinds, auto))
+                if res.startswith("ok"):
+                    covered.add((fam, nm))
                 if res.startswith("throw"):
                     rejected += 1
                 if kinds is not None:
@@ -295,6 +355,10 @@ def tie(ctx):
                     p = parse_obs(o[i + 1])
                     if p:
                         apiB[(ci, int(l.split()[1]))] = p["api"]
+    uncovered = sorted("%s %s" % (f, o) for f in sorted({G.family(s_) for s_ in schemas}) for o in G.ALL_OPS if (f, o) not in covered)
+    if uncovered:
+        divergences.append({"input": "coverage of the public mutating operations", "impl": "never followed by close + load after a successful call: " + ", ".join(uncovered[:12]),
+                            "model": "every public mutating operation of both generations (Hist.sweep)"})
     # reopening in between is invisible (C10_reopen_invisible): A and B observe the same at every prefix
     invisible = 0
     for key, a in apiA.items():
@@ -340,6 +404,20 @@ def tie(ctx):
             violations.append(mk_violation(s, sc, "exists-wrong", "database_exists", "database_exists answers %s on a created library" % o[3]))
         if m != o[2]:
             divergences.append({"input": "c10.reload " + s, "impl": o[2], "model": m})
+    # all versions one after the other in ONE process (anything remembered from an earlier load shows here)
+    order = list(G.SCHEMAS)
+    rng.shuffle(order)
+    chain = []
+    for s in order:
+        chain += ["create %s disk" % s, "closeall", "load"]
+    cho, _ = runner.run_harness_script(chain, watchdog=60)
+    for i, s in enumerate(order):
+        if cho[3 * i + 2] != "ok " + s:
+            upto = chain[:3 * i + 3]
+            violations.append(mk_violation(s, upto, "schema-differs", "load_database",
+                                           "created as %s after %d other libraries were loaded in the same process, load_database answers '%s'"
+                                           % (s, i, cho[3 * i + 2][:60])))
+            break
     combos = []
     v1s, v2s = G.SCHEMAS_V1, G.SCHEMAS_V2
     for pres in ("N0", "N", "L", "D", "LD"):
@@ -383,16 +461,18 @@ def tie(ctx):
                 "distinct (presence, schemas, request); non-trivial = the full observation was obtained on both sides",
         "samples": [jobs[0][3][:12] + ["..."], cscripts[0]],
         "histograms": {
-            "schemas": schemas, "histories": len(cases), "history_operations": hist_ops, "calls_that_threw": rejected,
+            "schemas": schemas, "histories": len(cases), "corpus": corpus_res, "history_operations": hist_ops, "calls_that_threw": rejected,
+            "mutating_operations_covered(family x op)": len(covered), "mutating_operations_uncovered": uncovered,
             "prefixes_closed_and_loaded": prefix_checked,
             "raw_dump_equal_after_load": raw_eq, "raw_dump_differs_after_load(not an alarm)": raw_ne,
             "reopen_invisible(prefixes where kept-open and reopened sessions agree)": invisible,
             "call_shapes": {"distinct": len(slist), "lean_closedShape": shape_verdicts, "calls": len(calls),
                             "autocommit_after_call": {a: sum(1 for x in calls if x[4] == a) for a in sorted({x[4] for x in calls})}},
-            "load_reports_created(schemas)": len(G.SCHEMAS), "create_or_load_experiments": col_hist,
+            "load_reports_created(schemas)": len(G.SCHEMAS), "load_chain_in_one_process": len(order), "create_or_load_experiments": col_hist,
         },
         "divergences": divergences[:20],
         "violations": vout,
+        "self_test": SELF_TEST,
     }
 
 
@@ -402,12 +482,29 @@ def replay(ctx, hdr, body):
     text, ok = [], True
     for l, o in zip(script, outs):
         text.append("%s\n   -> %s" % (l[:160], o[:300]))
-    if script and script[0].startswith("c10.dir"):
+    if script and script[0].startswith("c16.probe "):
+        for l, o in zip(script, outs):
+            _, sh, en = l.split(" ")[:3]
+            d = G.parse_probe(o)
+            if d is None:
+                ok = False
+                text.append("PROBLEM: the probe did not answer: %s" % o[:100])
+            else:
+                for tag, t in judge_col_probe(sh, en, d):
+                    ok = False
+                    text.append("PROBLEM %s: %s" % (tag, t))
+    elif script and script[0].startswith("c10.dir"):
         _, pres, s1, s2 = script[0].split(" ")
         req = script[3].split(" ")[1]
         for tag, t in judge_col(pres, s1, s2, req, outs):
             ok = False
             text.append("PROBLEM %s: %s" % (tag, t))
+    elif len(script) % 3 == 0 and all(script[i] == "closeall" for i in range(1, len(script), 3)):
+        for i in range(0, len(script), 3):
+            s = script[i].split(" ")[1]
+            if outs[i + 2] != "ok " + s:
+                ok = False
+                text.append("PROBLEM: created %s, load answers %s" % (s, outs[i + 2]))
     elif len(script) == 4 and script[1] == "closeall":
         s = script[0].split(" ")[1]
         if outs[2] != "ok " + s or outs[3] != "ok 1":
